@@ -15,6 +15,15 @@ CHECKS = {
         note='Trusted: ptrace single-step semantics, the generator (programs are deterministic), llvm-dwarfdump for instruction-boundary '
              'addresses. Universal monitors (text integrity, pc truth, all-stop) run at every stop and report under their own property id.',
         ref='DESIGN.md §4 C01'),
+    'C03': dict(
+        technique='runtime monitoring: each step landing located in an independent single-step trace and judged against its shadow call stack and an llvm-dwarfdump line table',
+        text='Seeded sequences of stepi/step/next/finish from random executed positions of generated programs; every landing is located by '
+             '(pc, rsp, TICK) in the reference trace and checked against the definition of the step kind (k+1; return point of the activation; '
+             'statement boundary no later than the first other-line boundary of the activation; never inside a callee; callee first line not '
+             'skipped) and the reported place against the reference line table. Held on the executions explored except the listed known findings.',
+        note='Trusted: ptrace single-step, llvm-dwarfdump line table, shadow-stack rule of the tracer. Only steps starting in generated user '
+             'functions are judged. Known genuine defects are keyed by structural cause in known_findings.json.',
+        ref='DESIGN.md §4 C03'),
 }
 
 NOT_APPLICABLE = {
